@@ -1,0 +1,26 @@
+//go:build verif
+
+package nfsv4
+
+// VerifLockProbeIsFree reports whether the lock of the pool can
+// currently be acquired exclusively. The lock is released again
+// immediately. This hook is only used by external verification tooling
+// (property C14) and never decides anything.
+func (ofp *OpenedFilesPool) VerifLockProbeIsFree() bool {
+	if !ofp.lock.TryLock() {
+		return false
+	}
+	ofp.lock.Unlock()
+	return true
+}
+
+// VerifLockProbeIsFree reports whether the lock that protects the
+// byte-range locks of the opened file can currently be acquired
+// exclusively. The lock is released again immediately.
+func (of *OpenedFile) VerifLockProbeIsFree() bool {
+	if !of.locksLock.TryLock() {
+		return false
+	}
+	of.locksLock.Unlock()
+	return true
+}
